@@ -32,6 +32,8 @@ MID_GREY_CASES = ("static_gray", "padding_data", "slice_padding_data", "slice_pr
                   "absent_next_parse_offset", "concatenated_sequences", "picture_numbers")
 SPRITE_CASES = ("source_parameters_encodings", "repeated_sequence_headers", "extended_transform_parameters")
 
+HEAVY_GENERATORS = ("signal_range",)
+
 _st = {}
 
 
@@ -48,20 +50,32 @@ def setup(ctx):
 
 
 def plan(tier, seed):
-    n = 48 if tier == "quick" else 3200
+    n = 96 if tier == "quick" else 4800
     nsh = 16 if tier == "quick" else 64
     return [{"shard": i, "n": n // nsh} for i in range(nsh)]
 
 
 def cases(spec, ctx):
     for i in range(spec["n"]):
-        r = configs.random_recipe(ctx.rng, {"maxw": 16, "maxh": 8, "max_slices": (3, 2), "max_dwt": 2, "max_depth_bits": 12})
+        big = ctx.rng.random() < 0.2
+        space = {"maxw": 16, "maxh": 8, "max_slices": (3, 2), "max_dwt": 2, "max_depth_bits": 12}
+        if big:
+            # a few larger pictures (slices of several hundred samples: length fields beyond one byte, scaler > 1)
+            space.update({"maxw": 64, "maxh": 32, "max_slices": (2, 2)})
+        r = configs.random_recipe(ctx.rng, space)
+        if big:
+            r["w"] = max(r["w"], 32 if r["cdf"] == 0 else 32)
+            r["h"] = max(r["h"], 16)
+            r["h"] -= r["h"] % 4
+            r["w"] -= r["w"] % 2
         if not r["lossless"]:
             n = r["sx"] * r["sy"]
             # byte budgets with every remainder modulo the slice count (slice sizes then differ between slices)
             rem = ctx.rng.randrange(n)
             r["pb"] = (ctx.rng.choice([n * 8, n * 20, n * 64]) if r["profile"] == 3 else ctx.rng.choice([n * 4, n * 9, n * 12, n * 40])) + rem
-        yield {"recipe": r}
+        # the signal-range generator (bit-width test patterns) costs about half of a configuration's time and is
+        # judged for validity only: it is run for one configuration in three
+        yield {"recipe": r, "heavy": ctx.rng.random() < 0.34}
 
 
 def reference_sprite_pictures(cf):
@@ -90,6 +104,9 @@ def run_case(case, ctx):
     ntc = 0
     for gen in DECODER_TEST_CASE_GENERATOR_REGISTRY.iter_independent_generators(cf):
         gname = getattr(getattr(gen, "args", [None])[0], "__name__", "?")
+        if gname in HEAVY_GENERATORS and not case.get("heavy", True):
+            ctx.count("heavy_generator_skipped:" + gname)
+            continue
         try:
             tcs = list(gen())
         except Exception as e:
@@ -221,16 +238,18 @@ def floor(agg, tier):
     c = agg["counters"]
     s = 1 if tier == "quick" else 60
     miss = []
-    if c.get("configurations", 0) < 40 * s:
-        miss.append("fewer than %d configurations" % (40 * s))
-    if c.get("accepted", 0) < 1500 * s:
-        miss.append("fewer than %d accepted test cases (%d)" % (1500 * s, c.get("accepted", 0)))
+    if c.get("configurations", 0) < 80 * s:
+        miss.append("fewer than %d configurations" % (80 * s))
+    if c.get("accepted", 0) < 3000 * s:
+        miss.append("fewer than %d accepted test cases (%d)" % (3000 * s, c.get("accepted", 0)))
     if c.get("mid_grey_pictures_checked", 0) < 1500 * s:
         miss.append("too few mid-grey pictures checked")
     if c.get("variant_pictures_checked", 0) < 250 * s:
         miss.append("too few variant pictures checked")
     if c.get("picture_number_cases_checked", 0) < 50 * s:
         miss.append("too few picture-number cases checked")
+    if c.get("test_cases:signal_range", 0) < 20 * s:
+        miss.append("signal_range test cases produced fewer than %d times" % (20 * s))
     for name in MID_GREY_CASES + SPRITE_CASES:
         if c.get("test_cases:" + name, 0) == 0:
             miss.append("test case family %s never produced" % name)
